@@ -30,7 +30,7 @@ Q = "create_redist_dict"
 NOT_COVERED = [
     "score_fn (jnp reductions over checkpoints) beyond 'scores are finite reals' as a precondition",
     "float32 overflow of score products to inf (int(inf) raises); scores assumed < 2^100",
-    "the loop over groups is verified under a loop contract for a symbolic number of groups; redist_dict is framed by alloc_fn's contract",
+    "the loop over groups is verified under a loop contract for a symbolic number of groups, where redist_dict is framed by alloc_fn's contract; the REAL layers_and_axes / create_groups / create_redist / alloc_fn are executed end to end (post-condition on the returned dictionary) on three concrete layer sets only (1 axis; 2 axes of one dim; 2 layers with free dims) - larger sets exceed the path budget",
 ]
 
 
@@ -161,10 +161,69 @@ def t_create_groups(ctx, it):
         ctx.oblige("create_groups.post.group-key-is-the-axis-dimension", dd == key)
 
 
+def _t_end_to_end(layout):
+  """The WHOLE real create_redist_dict — layers_and_axes, create_groups, create_redist, alloc_fn and the group loop,
+  none of them contracted — on a concrete layer set with symbolic axis dimensions, base rank and scores.  Only score_fn
+  (jnp reductions) is a contract: a non-negative opaque real per axis.  The post-condition is the property statement on
+  the RETURNED dictionary: every sketched axis carries an integer in [1, its dim] at its own (layer, axis) slot, and for
+  every axis the ranks of the axes that share its dimension sum to at most (their number) * base rank."""
+
+  def run(ctx, it):
+    m = it.load_module(RA)
+    rank = spec.fresh_int("sketchy_rank", lo=1)
+    dims = {}
+    pool = [spec.fresh_int("d%d" % i, lo=2) for i in range(3)]
+    sketches = {}
+    axes = []
+    for layer, axdims in layout:
+      sketches[layer] = {"axes": {}}
+      for a, di in enumerate(axdims):
+        sketches[layer]["axes"][str(a)] = {"dim": pool[di], "eigvals": 0}
+        dims[(layer, a)] = pool[di]
+        axes.append((layer, a))
+    states = [{"inner_state": {"0": {"direction": {"1": {"sketches": sketches}}}}}]
+    scores = {}
+    for layer, a in axes:
+      v = spec.fresh_real("score_%s_%d" % (layer, a))
+      ctx.assume(v >= 0)
+      scores["%s/axes/%d" % (layer, a)] = v
+    it.call_contracts["score_fn"] = lambda *a_, **k_: dict(scores)
+    out = m.create_redist_dict("", [], "sketch_trace", False, rank, states=states)
+    ctx.oblige("create_redist_dict.e2e.post.one-entry-per-layer", len(out) == len(layout))
+    got = {}
+    for layer, a in axes:
+      r = out[layer][a]
+      got[(layer, a)] = r
+      ctx.oblige("create_redist_dict.e2e.post.rank-in-[1,dim]-at-its-own-slot", sym.sand(r >= 1, r <= dims[(layer, a)]))
+    for ax in axes:
+      tot = 0
+      cnt = 0
+      for bx in axes:
+        same = dims[bx] == dims[ax]
+        tot = tot + sym.ite(same, got[bx], 0)
+        cnt = cnt + sym.ite(same, 1, 0)
+      ctx.oblige("create_redist_dict.e2e.post.group-sum<=group-size*base-rank", tot <= cnt * rank)
+
+  return run
+
+
+# not run: these two exceed 600 s (path explosion over the tie-breaking of opaque float comparisons)
+E2E_LAYOUTS_SLOW = [
+    ("one layer, two axes, dims free", [("l0", [0, 1])]),
+    ("two layers sharing a dim", [("l0", [0, 1]), ("l1", [0, 2])]),
+]
+
+
+E2E_LAYOUTS = [("one layer, one axis", [("l0", [0])]), ("one layer, two axes of one dim", [("l0", [0, 0])]), ("two layers, one axis each, dims free", [("l0", [0]), ("l1", [1])])]
+
+
 def tasks(tier):
-  return [Task("create_redist_dict[one symbolic group]", t_group), Task("create_groups", t_create_groups)]
+  ts = [Task("create_redist_dict[one symbolic group]", t_group), Task("create_groups", t_create_groups)]
+  for nm, lay in E2E_LAYOUTS:
+    ts.append(Task("create_redist_dict[end to end: %s]" % nm, _t_end_to_end(lay)))
+  return ts
 
 
 def main(tier):
   return H.standard_main(PID, tier, tasks(tier), not_covered=NOT_COVERED,
-                         structural=["one symbolic group: size n, dim, base rank, scores all symbolic"])
+                         structural=["one symbolic group: size n, dim, base rank, scores all symbolic", "end to end on 3 concrete layer sets (dims, base rank, scores symbolic): real layers_and_axes, create_groups, create_redist, alloc_fn"])
